@@ -44,7 +44,7 @@ class C15(core.Check):
                    'absolute scratch-directory paths printed by the listing are normalised before comparison')
     chunk = 2500
     crosscheck_every = {'quick': 200, 'thorough': 200}
-    required_buckets = {b: 3 for b in ['var:hashseed', 'var:env', 'var:cwd', 'var:include-order', 'var:include-duplicate',
+    required_buckets = {b: 3 for b in ['prog:overlapping-vocabulary', 'var:hashseed', 'var:env', 'var:cwd', 'var:include-order', 'var:include-duplicate',
                                        'var:include-symlink', 'prog:generated-isa', 'prog:multi-file', 'prog:example',
                                        'include-dirs>=3', 'ambiguous-include-name']}
 
@@ -123,6 +123,31 @@ class C15(core.Check):
                     files['ex/' + fn_] = open(p_, encoding='utf-8', errors='surrogateescape').read()
             files['isa.yaml'] = open(isa).read()
             yield self.build_runs(files, 'ex/' + os.path.basename(src), 'isa.yaml', ['.'], {'prog:example'}, heavy=True)
+        # vocabularies whose order matters to anything built from them: mnemonics and macro names that are prefixes of
+        # one another, or that end in a dotted suffix which is itself a mnemonic; many registers with shared prefixes
+        # (a dotted mnemonic is listed in front of its own prefix: the definition order is what makes these lines assemble)
+        for k, mns in enumerate([['sub.q', 'sub', 'q', 'ld.w', 'ld', 'w', 'add.c', 'c'], ['sub.q', 'q', 'sub', 'ld.w', 'w', 'ld'],
+                                 ['jmp.l', 'jmpx', 'jmp', 'jm', 'j', 'l'], ['st.k', 'stk', 'st', 'k.st', 'k']]):
+            rng = core.rng_for(0, self.pid, 'vocab', k)
+            isa = gen_prog.layout_isa(16)
+            isa['general']['registers'] = ['a', 'b', 'sp', 'r1', 'r10', 'r11', 'r', 'spx', 'x', 'xsp']
+            isa['operand_sets']['any8'] = {'operand_values': {'n8': {'type': 'numeric', 'argument': {'size': 8, 'byte_align': True}}}}
+            isa['instructions'] = {}
+            for n_, m_ in enumerate(mns):
+                isa['instructions'][m_] = {'bytecode': {'value': 0x40 + n_, 'size': 8}}
+                if n_ % 2:
+                    isa['instructions'][m_]['operands'] = {'count': 1, 'operand_sets': {'list': ['any8']}}
+            isa['macros'] = {mns[0] + 'x2': [{'instructions': [mns[0], mns[0]]}], 'm.' + mns[2]: [{'instructions': [mns[2]]}]}
+            src = []
+            for n_, m_ in enumerate(mns):
+                src.append(m_ + (' 5' if n_ % 2 else ''))
+            src.append(mns[0] + 'x2')
+            src.append('m.' + mns[2])
+            for a_ in range(len(mns)):
+                b_ = (a_ + 3) % len(mns)
+                src.append(mns[a_] + (' 7' if a_ % 2 else '') + ' ' + mns[b_] + (' 9' if b_ % 2 else ''))
+            fn, text = isamod.render_isa(isa, 'json')
+            yield self.build_runs({fn: text, 'p.asm': '\n'.join(src) + '\n'}, 'p.asm', fn, ['.'], {'prog:overlapping-vocabulary'})
         n = 30 if tier == 'quick' else 400
         for i in range(n):
             rng = core.rng_for(0 if i < 12 else seed, self.pid, i)
@@ -199,6 +224,9 @@ class C15(core.Check):
                 base[f] = o
             elif tag == 'baseline-abs':
                 base['abs/' + f] = o
+        if 'prog:overlapping-vocabulary' in case['tags'] and any(o_.get('exit') != 0 for o_ in base.values()):
+            # these directed programs are meant to assemble: agreeing failures would show nothing
+            return [core.inconclusive('directed program does not assemble', {'stderr': (list(base.values())[0].get('stderr') or '')[-300:]})]
         for (tag, f, hs), o, r in zip(labels, outcomes, case['runs']):
             if tag.startswith('baseline'):
                 continue
